@@ -67,7 +67,7 @@ def nver(c):
         return 20
     if c["suite"] == "par":
         return 40
-    return 17 * (c["nk"] + 1) + 18
+    return 19 * (c["nk"] + 1) + 21
 
 
 def parse_line(c, line):
@@ -166,7 +166,7 @@ def split_version(c, nums):
     res = {}
     g, bad, ck, al, ad = take(K), take(1)[0], take(K), take(K), take(1)[0]
     res["f"] = dict(get=g, badcnt=bad, ck=ck, all=al, all_dups=ad, get_dups=0, some=None)
-    for name, nsome in (("i0", 1), ("i1", 1), ("i01", K), ("i02", K), ("i12", 1), ("n", 1)):
+    for name, nsome in (("i0", 1), ("i1", 1), ("i2", 1), ("i01", K), ("i02", K), ("i12", 1), ("n", 1)):
         some = take(nsome)
         g, gd, al, ad = take(K), take(1)[0], take(K), take(1)[0]
         res[name] = dict(some=some, get=g, get_dups=gd, all=al, all_dups=ad, panic=(gd == -1))
@@ -271,7 +271,7 @@ def check_laws(c, steps):
 
     def add(law, i, view, ver, detail):
         # one report per law and view group of a history (the groups are what the known classes distinguish)
-        grp = "i12_all" if view == "i12_all" else ("rev" if view.split("_")[0] in ("i1", "i12") else "other")
+        grp = "i12_all" if view == "i12_all" else ("rev" if view.split("_")[0] in ("i1", "i2", "i12") else "other")
         key = (law, grp, ver)
         if key in seen:
             return
@@ -546,18 +546,9 @@ def run_impl(binary, cases):
 
 
 def classify(c, v):
-    """known-finding key of a law violation (None = not a listed class)"""
-    if c["suite"] != "ter":
-        return None
-    law, view, ver = v["law"], v["view"], v["ver"]
-    if law == "P4s" and view == "i12_all":
-        return "ternary_ind12_iter_all_unsound"
-    if v.get("merge") == "m" and (law == "P3a" or (v.get("double") and law in ("P4c", "P5"))):
-        return "ternary_full_index_merges_twice"
-    if law in ("P2b", "P3b", "P4c", "P5"):
-        return "ternary_merge_drops_delta"
-    if law == "PANIC" and view in ("i1", "i12") and ver == "D":
-        return "ternary_merge_drops_delta"
+    """known-finding key of a law violation: none — the five classes found by this check (ternary merge dropping
+    deltas, double merge through the full index, unsound [1,2] iter_all, missing [2] view, parallel key type) are
+    fixed in /repo, so every law violation is reported"""
     return None
 
 
